@@ -52,7 +52,7 @@ func buildChunk(r *vm.Rand, secs int, maxDistinct int) (*level.Chunk, *chunkDesc
 		for i := range vals {
 			switch r.Intn(4) {
 			case 0:
-				vals[i] = 0 // air
+				vals[i] = airStates()[r.Intn(3)] // one of the three kinds of air
 			case 1:
 				vals[i] = nStates - 1 - r.Intn(50)
 			default:
@@ -268,7 +268,7 @@ func checkNetwork(c *vm.Ctx, r *vm.Rand, ch *level.Chunk, d *chunkDesc) {
 				case k < 6:
 					v = received[r.Intn(len(received))]
 				case k == 6:
-					v = 0
+					v = airStates()[r.Intn(3)]
 				default:
 					v = r.Intn(nStates)
 				}
@@ -284,7 +284,7 @@ func checkNetwork(c *vm.Ctx, r *vm.Rand, ch *level.Chunk, d *chunkDesc) {
 					c.Violation("net/edit-after-read/block", fmt.Sprintf("section %d: after reading the chunk and %d SetBlock calls, GetBlock(%d)=%d, last set/received value is %d", si, len(ops), i, got, want), w)
 					return
 				}
-				if !block.IsAir(block.StateID(want)) {
+				if !refIsAir(block.StateID(want)) {
 					nonAir++
 				}
 			}
@@ -361,6 +361,20 @@ func checkSave(c *vm.Ctx, r *vm.Rand, ch *level.Chunk, d *chunkDesc, throughFile
 			c.Violation("save/content/"+diffClass(df), "save round trip changed the chunk: "+df, d.wit())
 			ok = false
 			return
+		}
+		// the count ChunkFromSave recomputes, against the by-name notion of air
+		for si := range back.Sections {
+			n := 0
+			for i := 0; i < 4096; i++ {
+				if !refIsAir(back.Sections[si].GetBlock(i)) {
+					n++
+				}
+			}
+			if int(back.Sections[si].BlockCount) != n {
+				c.Violation("save/content/block-count-vs-content", fmt.Sprintf("section %d read from the save form: BlockCount=%d, it holds %d non-air blocks", si, back.Sections[si].BlockCount, n), d.wit())
+				ok = false
+				return
+			}
 		}
 		if back.Status != ch.Status {
 			c.Violation("save/content/status", fmt.Sprintf("status %q became %q", ch.Status, back.Status), d.wit())
@@ -482,12 +496,76 @@ func canon(v *refnbt.Value) string {
 	return s + "}"
 }
 
+// refAir is the monitor's own notion of "air": the three block names the game treats as air, looked up by name in the
+// state list. The library's classifiers (block.IsAir, block.IsAirBlock) are compared with it, never used as the oracle.
+var refAir map[int]bool
+
+func refIsAir(s block.StateID) bool {
+	if refAir == nil {
+		refAir = map[int]bool{}
+		for i, b := range block.StateList {
+			switch b.ID() {
+			case "minecraft:air", "minecraft:cave_air", "minecraft:void_air":
+				refAir[i] = true
+			}
+		}
+	}
+	return refAir[int(s)]
+}
+
+var airList []int
+
+func airStates() []int {
+	if airList != nil {
+		return airList
+	}
+	refIsAir(0)
+	var a []int
+	for i := 0; i < nStates; i++ {
+		if refAir[i] {
+			a = append(a, i)
+		}
+	}
+	for len(a) < 3 {
+		a = append(a, 0)
+	}
+	airList = a
+	return a
+}
+
+// checkClassifiers: both air classifiers agree with the by-name reference on every state.
+func checkClassifiers(c *vm.Ctx) {
+	c.Guard("classifiers", func() any { return nil }, func() {
+		n := 0
+		for i := 0; i < nStates; i++ {
+			want := refIsAir(block.StateID(i))
+			if want {
+				n++
+			}
+			if got := block.IsAir(block.StateID(i)); got != want {
+				c.Violation("counter/air-classifier-differs/IsAir", fmt.Sprintf("IsAir(%d)=%v for %s", i, got, block.StateList[i].ID()), map[string]any{"state": i, "name": block.StateList[i].ID()})
+				return
+			}
+			if got := block.IsAirBlock(block.StateList[i]); got != want {
+				c.Violation("counter/air-classifier-differs/IsAirBlock", fmt.Sprintf("IsAirBlock(state %d)=%v for %s", i, got, block.StateList[i].ID()), map[string]any{"state": i, "name": block.StateList[i].ID()})
+				return
+			}
+		}
+		if n != 3 {
+			c.Inconclusive(fmt.Sprintf("the state list holds %d air states by name, expected 3", n))
+			return
+		}
+		c.Cover("counter.air-classifiers-agree")
+	})
+	c.Eval(vm.HashStr("classifiers", "all"), true)
+}
+
 func checkCounter(c *vm.Ctx, r *vm.Rand) {
 	ch := level.EmptyChunk(1)
 	s := &ch.Sections[0]
 	var airs []int
 	for i := 0; i < nStates; i++ {
-		if block.IsAir(block.StateID(i)) {
+		if refIsAir(block.StateID(i)) {
 			airs = append(airs, i)
 		}
 	}
@@ -518,7 +596,7 @@ func checkCounter(c *vm.Ctx, r *vm.Rand) {
 			if j%37 == 0 || j == steps-1 {
 				n := 0
 				for k := 0; k < 4096; k++ {
-					if !block.IsAir(s.GetBlock(k)) {
+					if !refIsAir(s.GetBlock(k)) {
 						n++
 					}
 				}
@@ -559,6 +637,7 @@ func run(c *vm.Ctx) {
 			c.Sample("chunk", d.wit())
 		}
 	}
+	checkClassifiers(c)
 	cr := c.Rand("counter")
 	for i := 0; i < c.Scale(400, 8000); i++ {
 		checkCounter(c, cr)
